@@ -44,7 +44,7 @@ def build():
     u.module("acme_proto", "use crate::*;\nuse crate::shims::*;\nuse crate::shims::structs::*;\nuse crate::shims::{http, storage, certificate, serde_json};\n"
              "use crate::jws::encode_kid;\nuse crate::acme_common::error::Error;")
     u.verify(AP, "request_certificate", "acme_proto", props=["C03", "C05", "C07", "C01", "C02", "C10"], fns={"request_certificate": FnSpec(
-        ret="r", ghost=True, attrs="#[verifier::exec_allows_no_decreases_clause]", sig="""
+        ret="r", ghost=True, locks=True, attrs="#[verifier::exec_allows_no_decreases_clause]", sig="""
     requires old(w).pending_clean.len() == 0, !old(w).hooks_ok, !old(w).cert_written, old(w).cur_auth is None, old(w).downloaded is None,
     ensures
         // success is reported only after the downloaded certificate has been written next to the key
